@@ -289,7 +289,7 @@ func (w *inotify) register(path string, flags uint32, recurse bool) error {
 		}
 
 		wd, err := unix.InotifyAddWatch(w.fd, path, flags)
-		if wd == -1 {
+		if wd == -1 || err != nil { // (a path with a NUL byte fails before the syscall: wd is 0 then)
 			return nil, err
 		}
 
